@@ -189,7 +189,7 @@ theorem resolveAST_used {p : Program} {views : Nat → Option FileView} {gfuel i
           exact absurd e2 (by omega)
         · -- through a typedef of this file whose type is qualified: that type node marked it
           rw [hax, hxi] at hge
-          rcases getEnum_idx ce.views ce.fuel ce.self a' vals (k : Int) hge with h1 | ⟨v, a'', root, r, g1, g2, g3, g4⟩
+          rcases getEnum_idx ce.views ce.fuel [] ce.self a' vals (k : Int) hge with h1 | ⟨v, a'', root, r, g1, g2, g3, g4⟩
           · exact absurd h1 (by omega)
           · rw [hcur] at g1
             simp only [Option.some.injEq] at g1
